@@ -71,3 +71,16 @@ hx_put_if_ref(int32 fid, int32 tag, int32 ref, const uint8 *data, int32 len)
         return -3;
     return Hputelement(fid, (uint16)tag, (uint16)ref, data, len);
 }
+
+/* SDsetchunk/GRsetchunk take the 176-byte HDF_CHUNK_DEF union by value: wrappers taking a pointer */
+int32
+hx_SDsetchunk(int32 sdsid, HDF_CHUNK_DEF *def, int32 flags)
+{
+    return SDsetchunk(sdsid, *def, flags);
+}
+
+int32
+hx_GRsetchunk(int32 riid, HDF_CHUNK_DEF *def, int32 flags)
+{
+    return GRsetchunk(riid, *def, flags);
+}
